@@ -256,7 +256,7 @@ def _base_strategy():
 
 SUBS = [
     Sub("aggregates", check, strategy=_strategy, quick=1200, thorough=30000, shards=16,
-        floors={"nt": 0.244, "zero_denominator": 0.05, "control": 0.15, "negative_values": 0.03,
-                "all_equal_groups": 0.05, "tiny_valued_metric": 0.02, "mean_metric": 0.3, "dict": 0.234,
-                "nan_cell_beside_other_metric": 0.015}),
+        floors={"nt": 0.236, "zero_denominator": 0.05, "control": 0.15, "negative_values": 0.03,
+                "all_equal_groups": 0.05, "tiny_valued_metric": 0.02, "mean_metric": 0.282, "dict": 0.234,
+                "nan_cell_beside_other_metric": 0.011}),
 ]
